@@ -54,27 +54,103 @@ example (fs : List Files.File) :
     (ofFiles fs).entries = fs.map (fun f => ⟨⟨f.id.dir, f.id.leaf⟩, ⟨f.id.dir, f.id.leaf⟩⟩) ∧
     (ofFiles fs).files = fs.map (fun f => ⟨⟨f.id.dir, f.id.leaf⟩, f.includes, f.defines⟩) := ⟨rfl, rfl⟩
 
-/-- **C. Refinement.**  A successful run of the model with links over a file system without links is a successful run
-    of the older model `Files.processMains` on the same inputs, with - input by input - the same `exports`, `visible`
-    and `parsed`.  No hypothesis on `fs` is needed (duplicate ids: both models read the first entry). -/
-theorem C20_links_refines_files (fs : List Files.File) (incs : List String) (ms : List Path)
+/-- `Files.processMains` with the fuel as a parameter; `Files.processMains` is the instance `4 * fs.length + 4` -/
+abbrev filesMainsN (fs : List Files.File) (n : Nat) (incs : List String) :=
+  filesMainsN_l fs n incs
+
+theorem filesMainsN_eq (fs : List Files.File) (incs : List String) (ms : List Files.FileId) (c : Files.Cache) :
+    filesMainsN fs (4 * fs.length + 4) incs ms c = Files.processMains fs incs ms c :=
+  filesMainsN_eq_l fs incs ms c
+
+/- **C, ORIGINAL STATEMENT - FALSE in the models as they are now.**
+
+     theorem C20_links_refines_files (fs : List Files.File) (incs : List String) (ms : List Path)
+         (rs : List (Path × Result)) (h : processMains (ofFiles fs) incs ms {} = .ok rs) :
+         Files.processMains fs incs (ms.map toId) [] = .ok (rs.map fun mr => (toId mr.1, toRes mr.2))
+
+   It was true (and proved) while both models started with the fuel `4 * #files + 4`.  With `processNamed` the model with
+   links spends one more unit of fuel per level and its fuel was raised to `5 * #entries + 5`; the older model still starts
+   with `4 * #files + 4`.  Walking along an include list costs one unit per include in BOTH models, so a file system with
+   few levels and long include lists (or with files that are never included: they only add fuel) is within the fuel of
+   the model with links and beyond the fuel of the older one, which then reports a bogus `cyclic`.  Nothing of this exists
+   in the real code (no fuel).  Two witnesses, then the true variants. -/
+
+/-- smallest witness found: `m` includes the leaf `a` nineteen times, two more files are never used
+    (fuel `5 * 4 + 5 = 25` against `4 * 4 + 4 = 20`) -/
+def fsNineteen : List Files.File :=
+  [⟨⟨"d", "m"⟩, List.replicate 19 "a", ["M"]⟩, ⟨⟨"d", "a"⟩, [], ["A"]⟩, ⟨⟨"d", "u1"⟩, [], []⟩, ⟨⟨"d", "u2"⟩, [], []⟩]
+
+example :
+    (match processMains (ofFiles fsNineteen) [] [⟨"d", "m"⟩] {} with | .ok _ => true | .error _ => false) = true ∧
+    (match Files.processMains fsNineteen [] [toId ⟨"d", "m"⟩] [] with
+      | .error e => e == .cyclic ⟨"d", "a"⟩ | .ok _ => false) = true := by
+  rw [processMainsS_eq_l]
+  decide +kernel
+
+/-- a witness where no leaf is included twice by one file and every file is used: a chain `c0 → ... → c5`, each of which
+    first includes the nine files `x0 .. x8` (15 files: fuel 80 against 64) -/
+def fsChain : List Files.File :=
+  let xs := ["x0", "x1", "x2", "x3", "x4", "x5", "x6", "x7", "x8"]
+  [⟨⟨"d", "c0"⟩, xs ++ ["c1"], []⟩, ⟨⟨"d", "c1"⟩, xs ++ ["c2"], []⟩, ⟨⟨"d", "c2"⟩, xs ++ ["c3"], []⟩,
+   ⟨⟨"d", "c3"⟩, xs ++ ["c4"], []⟩, ⟨⟨"d", "c4"⟩, xs ++ ["c5"], []⟩, ⟨⟨"d", "c5"⟩, xs, []⟩] ++
+  xs.map (fun x => ⟨⟨"d", x⟩, [], []⟩)
+
+example :
+    (match processMains (ofFiles fsChain) [] [⟨"d", "c0"⟩] {} with | .ok _ => true | .error _ => false) = true ∧
+    (match Files.processMains fsChain [] [toId ⟨"d", "c0"⟩] [] with
+      | .error e => e == .cyclic ⟨"d", "x7"⟩ | .ok _ => false) = true := by
+  rw [processMainsS_eq_l]
+  decide +kernel
+
+/-- **C. Refinement, true variant 1 (no added hypothesis, the fuel made explicit).**  A successful run of the model with
+    links over a file system without links is a successful run of the older model on the same inputs - given the same
+    fuel `5 * fs.length + 5`, or any larger one - with, input by input, the same `exports`, `visible` and `parsed`.
+    No hypothesis on `fs` is needed (duplicate ids: both models read the first entry). -/
+theorem C20_links_refines_files_fuel (fs : List Files.File) (incs : List String) (ms : List Path)
     (rs : List (Path × Result)) (h : processMains (ofFiles fs) incs ms {} = .ok rs) :
-    Files.processMains fs incs (ms.map toId) [] = .ok (rs.map fun mr => (toId mr.1, toRes mr.2)) :=
-  processMains_refines_l fs incs ms {} rs h
+    ∀ n, 5 * fs.length + 5 ≤ n →
+      filesMainsN fs n incs (ms.map toId) [] = .ok (rs.map fun mr => (toId mr.1, toRes mr.2)) :=
+  fun _ hn => filesMainsN_mono_l fs incs hn _ _ _ (processMains_refines_l fs incs ms {} rs h)
+
+/-- **C. Refinement, true variant 2 (the original conclusion).**  ADDED HYPOTHESIS `hF`: the older model does not run out
+    of its own, smaller fuel (`Files.processMains` succeeds at all).  Then it returns exactly the results of the model
+    with links. -/
+theorem C20_links_refines_files (fs : List Files.File) (incs : List String) (ms : List Path)
+    (rs : List (Path × Result)) (h : processMains (ofFiles fs) incs ms {} = .ok rs)
+    (hF : ∃ rs', Files.processMains fs incs (ms.map toId) [] = .ok rs') :
+    Files.processMains fs incs (ms.map toId) [] = .ok (rs.map fun mr => (toId mr.1, toRes mr.2)) := by
+  obtain ⟨rs', h'⟩ := hF
+  rw [h', processMains_refines_agree_l fs incs ms {} rs rs' h h']
 
 /-- so the theorems of `Properties/C16.lean` keep their meaning; for instance: no file is parsed twice -/
 theorem C20_links_parsed_once (fs : List Files.File) (incs : List String) (ms : List Path)
     (rs : List (Path × Result)) (h : processMains (ofFiles fs) incs ms {} = .ok rs) :
     (rs.flatMap (·.2.parsed)).Nodup := by
-  have h1 := Files.parsed_once_p15 fs incs _ _ _ (C20_links_refines_files fs incs ms rs h)
+  have h1 := (filesMainsN_parsedInv_l fs _ incs _ _ _ (processMains_refines_l fs incs ms {} rs h)).1
   have h2 : (rs.map fun mr => (toId mr.1, toRes mr.2)).flatMap (·.2.parsed) =
       (rs.flatMap (·.2.parsed)).map toId := by
     clear h h1
     induction rs with
     | nil => rfl
     | cons a rs ih => rw [List.map_cons, List.flatMap_cons, List.flatMap_cons, List.map_append, ih]; rfl
-  rw [h2] at h1
+  rw [Files.allParsed_p15, h2] at h1
   exact nodup_of_map_l _ h1
+
+/-- without links `processNamed` never refuses: every path is its own real path, so a real path is only ever used under
+    its own leaf (`NameInv_l`: every registered name is the leaf of the real path), and `processNamed` goes on to
+    `processKnown` in a state that satisfies the invariant again -/
+theorem C20_links_processNamed_trivial (fs : List Files.File) (incs : List String) (n : Nat) (st : State) (p r : Path)
+    (hI : NameInv_l st) (hr : real (ofFiles fs) p = some r) :
+    ∃ st0, NameInv_l st0 ∧ st0.cache = st.cache ∧ st0.includesOf = st.includesOf ∧ st0.verified = st.verified ∧
+      st0.names = st.names ∧
+      processNamed (ofFiles fs) incs (n + 1) st p r = processKnown (ofFiles fs) incs n st0 p r :=
+  processNamed_ofFiles_l fs incs n st p r hI hr
+
+/-- ... and so no run over a file system without links ends with `TwoNamesError` (the invariant holds initially and in
+    every state of the run, also of a run that fails: `NoTwo_all_l`) -/
+theorem C20_links_no_twoNames (fs : List Files.File) (incs : List String) (ms : List Path) (q : Path) :
+    processMains (ofFiles fs) incs ms {} ≠ .error (.twoNames q) :=
+  processMains_noTwoNames_l fs incs ms {} NameInv_init_l q
 
 /-- without links `sameIncludes` always succeeds and changes nothing: a finished file that is reached again was verified
     for the very same (real path, directories) pair when it was parsed (`VerInv_l`, an invariant of every run over
@@ -89,10 +165,11 @@ theorem C20_links_sameIncludes_trivial_inv (fs : List Files.File) (incs : List S
   ⟨VerInv_init_l, fun n st p res st' h hV => VerInv_processFile_l fs incs n st p res st' h hV⟩
 
 /-- The converse of C ("the older model succeeds ⇒ the model with links succeeds, or fails with `sameName`/`tooDeep`
-    only") is FALSE for the models as they are, for a reason that has nothing to do with links: the model with links
-    spends two units of fuel per level (`processFile` → `processKnown`), the older model one, and both start with
-    `4 * #files + 4`.  Ten includes of one leaf: the older model succeeds, the model with links runs out of fuel
-    (reported as `cyclic`).  The real code has no fuel. -/
+    only") is FALSE as well for the models as they are, again only because of fuel: the model with links spends three
+    units of fuel per level (`processFile` → `processNamed` → `processKnown`), the older model one; with few files the
+    fuel `5 * #entries + 5` does not make up for that.  Ten includes of one leaf (fuel 15 against 12): the older model
+    succeeds, the model with links runs out of fuel (reported as `cyclic`).  The real code has no fuel.
+    So neither fuel dominates the other: `fsNineteen` / `fsChain` above, `fsTen` here. -/
 def fsTen : List Files.File := [⟨⟨"d", "m"⟩, List.replicate 10 "a", ["M"]⟩, ⟨⟨"d", "a"⟩, [], ["A"]⟩]
 
 example :
@@ -186,6 +263,30 @@ example : eval fsShared [] 4 [] ⟨"q", "b"⟩ =
   rw [evalS_eq_l]
   decide +kernel
 
+/-- one real file under two base names: `types` is an alias link to `types_v2`, and `main` includes both -/
+def fsAlias : FS :=
+  ⟨[⟨⟨"d", "main"⟩, ⟨"d", "main"⟩⟩, ⟨⟨"d", "types_v2"⟩, ⟨"d", "types_v2"⟩⟩, ⟨⟨"d", "types"⟩, ⟨"d", "types_v2"⟩⟩],
+   [⟨⟨"d", "main"⟩, ["types", "types_v2"], ["M"]⟩, ⟨⟨"d", "types_v2"⟩, [], ["T"]⟩]⟩
+
+/-- refused (`TwoNamesError`), in either order of the two includes; with one of the names only it compiles -/
+example :
+    processMains fsAlias [] [⟨"d", "main"⟩] {} = .error (.twoNames ⟨"d", "types_v2"⟩) ∧
+    processMains ⟨fsAlias.entries, [⟨⟨"d", "main"⟩, ["types_v2", "types"], ["M"]⟩, ⟨⟨"d", "types_v2"⟩, [], ["T"]⟩]⟩ []
+      [⟨"d", "main"⟩] {} = .error (.twoNames ⟨"d", "types"⟩) ∧
+    processMains ⟨fsAlias.entries, [⟨⟨"d", "main"⟩, ["types", "types"], ["M"]⟩, ⟨⟨"d", "types_v2"⟩, [], ["T"]⟩]⟩ []
+      [⟨"d", "main"⟩] {} = .ok [(⟨"d", "main"⟩, ⟨["M"], ["T", "T", "M"], [⟨"d", "main"⟩, ⟨"d", "types_v2"⟩],
+        [(0, ⟨"d", "main"⟩), (1, ⟨"d", "types_v2"⟩), (1, ⟨"d", "types_v2"⟩)]⟩)] := by
+  rw [processMainsS_eq_l, processMainsS_eq_l, processMainsS_eq_l]
+  decide +kernel
+
+/-- the same across two inputs: the second one uses the other name -/
+example :
+    processMains ⟨⟨⟨"d", "other"⟩, ⟨"d", "other"⟩⟩ :: fsAlias.entries,
+        [⟨⟨"d", "main"⟩, ["types"], ["M"]⟩, ⟨⟨"d", "other"⟩, ["types_v2"], ["O"]⟩, ⟨⟨"d", "types_v2"⟩, [], ["T"]⟩]⟩ []
+      [⟨"d", "main"⟩, ⟨"d", "other"⟩] {} = .error (.twoNames ⟨"d", "types_v2"⟩) := by
+  rw [processMainsS_eq_l]
+  decide +kernel
+
 /-- C is not vacuous: the diamond of `Properties/C16.lean` runs in the model with links -/
 example : (match processMains (ofFiles [
       ⟨⟨"/p", "main"⟩, ["a", "b"], ["M"]⟩, ⟨⟨"/p/i1", "a"⟩, ["base"], ["A"]⟩,
@@ -201,6 +302,9 @@ end Prophy.C20L
 #print axioms Prophy.C20L.C20_links_order_independent
 #print axioms Prophy.C20L.C20_links_as_alone
 #print axioms Prophy.C20L.C20_links_refines_files
+#print axioms Prophy.C20L.C20_links_refines_files_fuel
+#print axioms Prophy.C20L.C20_links_processNamed_trivial
+#print axioms Prophy.C20L.C20_links_no_twoNames
 #print axioms Prophy.C20L.C20_links_parsed_once
 #print axioms Prophy.C20L.C20_links_sameIncludes_trivial
 #print axioms Prophy.C20L.C20_links_sameIncludes_trivial_inv
